@@ -161,6 +161,15 @@ theorem C20_site_census :
       "monitor::funding_double_spent_depth", "monitor::new_from_persistence", "node::maybe_sync_persister",
       "node::new_from_persistence", "node::restore_node", "provider::new"] := by rfl
 
+/-- generated-table obligation: every lock order that a comment of the sources documents (`lock order:
+tracker -> channels -> channel -> node state`, `tracker before channels`, monitor.rs "after `self.state`") is
+strictly increasing in the rank that orders the table: documentation, code and proof agree on ONE order
+(a comment about a lock order that the extractor cannot read fails the extraction) -/
+theorem C20_documented_orders_respect_rank :
+    documentedOrders.length ≥ 5 ∧
+    ∀ d ∈ documentedOrders, (d.2.zip d.2.tail).all (fun p => decide (rankCls p.1 < rankCls p.2)) = true := by
+  decide +kernel
+
 /-- a concrete request conforms to a row of edges -/
 def ConformsRow (row : List (Cls × Cls)) (r : List (Ev Lock)) : Prop :=
   (∀ e ∈ edgesOf [] r, (e.1.cls, e.2.cls) ∈ row) ∧ endsEmpty [] r = true
@@ -462,6 +471,49 @@ theorem Locks_2pl_serializable {L D : Type} [DecidableEq L] (mem0 : L → D)
       cases reqs[i]? <;> rfl
     rw [this]
 
+/-- **Safety invariants lift to concurrent histories** (the "in particular C01–C03 hold for concurrent
+histories too" clause, in the lock model with data): let `Inv` be any predicate on the data (e.g. "the
+enforcement counters of every channel satisfy C01–C03", "the ledger never exceeds the approvals") that holds
+initially and is preserved by every request when run alone (sequentially).  Then it holds in the final state of
+EVERY complete interleaved execution of strict two-phase requests — no schedule can break it. -/
+theorem Locks_2pl_invariant_lifts {L D : Type} [DecidableEq L] (mem0 : L → D)
+    (reqs : List (List (DEv L D)))
+    (hstrict : ∀ r ∈ reqs, strict2pl r = true) (hrel : ∀ r ∈ reqs, hasRel r = true)
+    (Inv : (L → D) → Prop) (h0 : Inv mem0)
+    (hstep : ∀ m, ∀ r ∈ reqs, Inv m → Inv (runReq m r)) :
+    ∀ n s, Locks2pl.Steps n (Locks2pl.mkState mem0 reqs) s → Locks2pl.allDone s → Inv s.mem := by
+  intro n s hs hdone
+  obtain ⟨order, _, hmem, heq⟩ := Locks_2pl_serializable mem0 reqs hstrict hrel n s hs hdone
+  have hfun : s.mem = order.foldl (fun m i => runReq m (reqs[i]?.getD [])) mem0 := funext heq
+  rw [hfun]
+  have hall : ∀ i ∈ order, i < reqs.length := fun i hi => (hmem i).mp hi
+  clear hfun heq hmem
+  have gen : ∀ (o : List Nat) (m : L → D), (∀ i ∈ o, i < reqs.length) → Inv m →
+      Inv (o.foldl (fun m i => runReq m (reqs[i]?.getD [])) m) := by
+    intro o
+    induction o with
+    | nil => intro m _ hm; exact hm
+    | cons i is ih =>
+      intro m hlt hm
+      simp only [List.foldl_cons]
+      apply ih
+      · intro j hj; exact hlt j (List.mem_cons_of_mem _ hj)
+      · have hi : i < reqs.length := hlt i (List.mem_cons_self ..)
+        have hget : reqs[i]?.getD [] = reqs[i] := by simp [hi]
+        rw [hget]
+        exact hstep m _ (List.getElem_mem hi) hm
+  exact gen order mem0 hall h0
+
+/-- non-vacuity of `Locks_2pl_invariant_lifts`: two contending ledger requests (+2 and ×3 on cell 9), the
+invariant "cell 9 is even" holds initially and is preserved by each request alone, hence after every complete
+interleaving (here: the one in which thread 1 commits first) -/
+example :
+    let r0 : List (DEv Nat Nat) := [.acq 9, .upd 9 (· + 2), .rel 9]
+    let r1 : List (DEv Nat Nat) := [.acq 9, .upd 9 (· * 3), .rel 9]
+    ((Locks2pl.runSched (Locks2pl.mkState (fun _ => 4) [r0, r1]) [1, 1, 1, 0, 0, 0]).map
+        (fun s => (s.mem 9 % 2, s.threads.all (fun t => t.todo.isEmpty)))) = some (0, true) := by
+  decide +kernel
+
 /-- generated-table obligation tying the code to the hypothesis of `Locks_2pl_serializable`: in every
 Channel method that read-modify-writes the node ledger (claimable_balances / validate_payments ...
 apply_payments) these steps sit in ONE node_state critical section: the node_state events of the
@@ -588,6 +640,23 @@ theorem C20_programs_serializable {D : Type} (mem0 : Lock → D) (reqs : List (L
     rw [Bool.and_eq_true] at hf
     exact ⟨by rw [← strict2pl_shape]; exact hf.1, by rw [← hasRel_shape]; exact hf.2⟩
   exact Locks_2pl_serializable mem0 reqs (fun r hr => (h2 r hr).1) (fun r hr => (h2 r hr).2)
+
+/-- … and so every safety invariant of the data that each such request preserves when run alone (C01–C03 on
+the enforcement state of the channels, the payment ledger bound) holds after every complete concurrent
+execution of requests shaped like the extracted strict two-phase programs -/
+theorem C20_programs_invariant_lifts {D : Type} (mem0 : Lock → D) (reqs : List (List (DEv Lock D)))
+    (hshape : ∀ r ∈ reqs, shape r ∈ twoPhasePrograms)
+    (Inv : (Lock → D) → Prop) (h0 : Inv mem0)
+    (hstep : ∀ m, ∀ r ∈ reqs, Inv m → Inv (runReq m r)) :
+    ∀ n s, Locks2pl.Steps n (Locks2pl.mkState mem0 reqs) s → Locks2pl.allDone s → Inv s.mem := by
+  have h2 : ∀ r ∈ reqs, strict2pl r = true ∧ hasRel r = true := by
+    intro r hr
+    have hm := hshape r hr
+    unfold twoPhasePrograms at hm
+    have hf := (List.mem_filter.mp hm).2
+    rw [Bool.and_eq_true] at hf
+    exact ⟨by rw [← strict2pl_shape]; exact hf.1, by rw [← hasRel_shape]; exact hf.2⟩
+  exact Locks_2pl_invariant_lifts mem0 reqs (fun r hr => (h2 r hr).1) (fun r hr => (h2 r hr).2) Inv h0 hstep
 
 /-- non-vacuity of `C20_programs_serializable`: at least 30 generated programs are strict two-phase write
 transactions, among them the nested pattern "slot, then the node ledger inside it" of the commitment arms
